@@ -624,6 +624,14 @@ impl<F: Read + Write + Seek> Package<F> {
         if self.tables.contains_key(&table_name) {
             already_exists!("Table {:?} already exists", table_name);
         }
+        for column in columns.iter() {
+            if !column.is_storable() {
+                invalid_input!(
+                    "The file format cannot represent column {:?}",
+                    column.name()
+                );
+            }
+        }
         self.insert_rows(
             Insert::into(COLUMNS_TABLE_NAME).rows(
                 columns
